@@ -26,6 +26,23 @@ Specification side (from the statement, not from the code)
   isothermal:  Hnet' - Hnet = sum_i dH_i * (reactant fed to reaction i)   [parallel: from the feed; series/system:
                from the running composition]
   adiabatic:   Hnet' = Hnet + Q
+
+The isothermal sentence and the temperature
+  dH has no temperature argument: it is the heat of reaction at 298.15 K (latent heats at 298.15 K).  At another
+  temperature the stream's sensible/latent enthalpy H also changes with the composition (sum_k nu_k h_k(T)), so the
+  literal sentence can only hold where H does not change.  The groups therefore state
+    C06/isothermal          (Hnet - H)' - (Hnet - H) = sum_i (dH_i - X_i * latent part_i) * fed_i      for every T, P
+                            i.e. the literal sentence with the change of H at constant T made explicit (dH_i is what
+                            the code reports, and is separately compared with the statement's table);
+    C06/isothermal_literal  the literal sentence with H uninterpreted: refuted (kept visible, proposed known finding);
+    C06/real_reactions (B)  the literal sentence at 298.15 K with every chemical in its reference phase, on real data.
+
+Harness notes
+  * reaction sets and everything under the adiabatic temperature solve use numeric stoichiometric coefficients
+    (config names end in `fixed-nu`); single isothermal reactions and the dH ladder have symbolic coefficients;
+  * molecular weights are symbolic only in C06/dH; the stream groups use the database values;
+  * `forget(stream)` empties the stream's property memo before the post-state is read (memo coherence is C14);
+  * the reactant fed is counted in the unit of the basis (kmol/hr or kg/hr), dH in J/mol or J/g.
 """
 import os
 import types
